@@ -22,7 +22,7 @@ theorem C12_date (E : Ext) (typ md y m d : Nat) (ht : typ = 10 ∨ typ = 14) (hy
   have h2 : (d + 32 * m + 512 * y) / 32 % 16 = m := by omega
   have h3 : (d + 32 * m + 512 * y) % 32 = d := by omega
   rw [date_body E typ md ht]
-  simp only [W.cell, leIdx_head, Res.ok_bind, Res.pure_eq, hv, h1, h2, h3, W.text,
+  simp only [W.cell, leIdx_head12, Res.ok_bind, Res.pure_eq, hv, h1, h2, h3, W.text,
     pad4_year y hy, pad2_two m (by omega), pad2_two d (by omega)]
 
 /-- pre-5.6.4 TIME (3-byte ±hhmmss), hours up to 838, both signs -/
@@ -35,7 +35,7 @@ theorem C12_time_old (E : Ext) (md h m s : Nat) (neg : Bool) (hh : h ≤ 838) (h
   have h3 : (h * 10000 + m * 100 + s) % 100 = s := by omega
   have hb : h * 10000 + m * 100 + s ≤ 8385959 := by omega
   rw [time_old_body]
-  simp only [W.cell, get2_ofLE3, leIdx_head, Res.ok_bind, Res.pure_eq, toNat_ofNat_mod,
+  simp only [W.cell, get2_ofLE3, leIdx_head12, Res.ok_bind, Res.pure_eq, toNat_ofNat_mod,
     W.text, ← pad2_hours h (by omega), ← pad2_two m (by omega), ← pad2_two s (by omega)]
   cases neg with
   | false =>
